@@ -751,7 +751,7 @@ def run_round(ctx, case, cb):
         m = int(np.argmin(np.linalg.norm(centres - hv.mean(axis=0), axis=1)))
         tol = 1e-6 * (1 + float(np.abs(hv).max()))
         dist = np.linalg.norm(hv[:, None, :] - pool[m][None, :, :], axis=2).min(axis=1).max()
-        if dist > 10 * tol + 2e-7:
+        if not (dist <= 10 * tol + 2e-7):
             ctx.violation(f"round-delete:{name}:unknown-block", f"{where}: a written hex matches no operation of the shape (nearest is off by {dist:.3g})")
             return
         hit[m] += 1
